@@ -109,8 +109,17 @@ def callee_from_clauses(name, params, requires, ensures, results, ghosts=None, r
         return {n_.id for n_ in ast.walk(tree) if isinstance(n_, ast.Name)} - bound
 
     def stub(eng, st, args, kw, node):
-        if kw or len(args) != len(params):
-            raise OutOfSubset('call of %s with keywords / wrong arity' % name)
+        if kw:
+            # keyword arguments are matched to the parameter names of the callee
+            args = list(args)
+            for p_ in params[len(args):]:
+                if p_ not in kw:
+                    raise OutOfSubset('call of %s: parameter %s not given' % (name, p_))
+                args.append(kw[p_])
+            if set(kw) - set(params):
+                raise OutOfSubset('call of %s with unknown keywords' % name)
+        if len(args) != len(params):
+            raise OutOfSubset('call of %s with wrong arity' % name)
         # capture guard: a clause of the callee that mentions one of ITS locals must not be read with a variable of the caller of the same name
         declared = set(params) | set(rebinds or {}) | set(ghosts or {}) | set(fresh_ghosts or ()) | set(core.SPEC_BUILTINS) | {'INF', 'n0', 'True', 'False', 'None', 'np'}
         for cname, src in list(requires) + list(ensures):
